@@ -137,7 +137,15 @@ def iban_shard(args):
                 for pc in bases.partners(country):
                     kp, built = lib.outcome(lib.IBAN.from_bban, pc, obj.bban)
                     lib.outcome(lib.IBAN.from_bban, pc, obj.bban, allow_invalid=True)
-                    part["evals"] += 2
+                    # further ways of handing this object's BBAN (or the object itself) to the
+                    # library under another country
+                    lib.outcome(lib.IBAN.from_bban, pc, obj.bban, validate_bban=True)
+                    lib.outcome(lib.IBAN.from_bban, pc, obj.bban, True, True)
+                    lib.outcome(lib.BBAN, pc, obj.bban)
+                    lib.outcome(lambda: lib.BBAN(pc, obj.bban).bank_code)
+                    lib.outcome(lib.IBAN, obj)
+                    lib.outcome(lib.IBAN, obj, validate_bban=True)
+                    part["evals"] += 8
                     if kp == "ok":
                         # the IBAN assembled for the partner from this country's BBAN object
                         # decomposes by the partner's published layout
@@ -147,6 +155,14 @@ def iban_shard(args):
                                            {"kind": "c11obj", "text": str(built), "from_country": country,
                                             "source": base}, exp, obs)
                 after = [getattr(obj, n) for n in COMPS] + [obj.bban.country_code, str(obj.bban)]
+                if after == before:
+                    # ... and the object must still be judged as before
+                    kv, vv = lib.outcome(lambda: (obj.is_valid, lib.outcome(obj.validate)[0]))
+                    if (kv, vv) != ("ok", (True, "ok")):
+                        part.violation("object-judged-differently-after-its-BBAN-was-used-for-another-country",
+                                       {"kind": "c11", "type": "iban", "text": base, "how": "same object re-validated "
+                                        "after BBAN(partner, obj.bban) / from_bban(partner, obj.bban, ...)"},
+                                       (True, "ok"), (kv, vv))
                 if after != before:
                     part.violation("object-altered-by-from_bban-of-another-country",
                                    {"kind": "c11", "type": "iban", "text": base, "how": "same object re-read "
@@ -192,11 +208,34 @@ def bic_shard(args):
     return part.done()
 
 
+def runtime_shard(args):
+    """Run-time update of the country table through registry.save (shared with C18): assembly,
+    decomposition and generation follow the table in force, also for objects created earlier."""
+    from . import c18
+    from ..engine import sandbox
+    part = par.Part()
+    before = sandbox.deep_snapshot()
+    part["evals"] += 40
+    for i in range(40):
+        part.seen.add(hash(("runtime", i)))
+    for sig, exp, obs in c18.runtime_table_problems():
+        part.violation(sig + " [run-time table update]", {"kind": "runtime-table"}, exp, obs)
+    sandbox.assert_restored(before)
+    part.stat("runtime_table_updates", 3)
+    return part.done()
+
+
 def shard(args):
+    if args[0] == "runtime-table":
+        return runtime_shard(args)
     return iban_shard(args) if args[0] == "iban" else bic_shard(args)
 
 
 def replay(case: dict) -> dict:
+    if case.get("kind") == "runtime-table":
+        from . import c18
+        probs = c18.runtime_table_problems()
+        return {"ok": not probs, "observed": [(p[0], p[2]) for p in probs]}
     if case.get("kind") == "c11obj":
         src = lib.IBAN(case["source"])
         built = lib.IBAN.from_bban(case["text"][:2], src.bban)
@@ -211,7 +250,7 @@ def main(tier: str) -> int:
     run = report.Run(PID, tier, "exploration", RULE)
     countries = sorted(reg.countries())
     shards = [("iban", c, tier) for c in countries] + [("bic", b, tier) for b in c04.bases()]
-    par.run_shards(run, shard, shards)
+    par.run_shards(run, shard, [("runtime-table", tier)] + shards)
     run.extra.update({"countries": len(countries), "bic_bases": len(c04.bases())})
     run.assumptions += ["published positions = the tree's merged table as read by mc/ref/reg.py; the "
                         "'distinct' filler makes a shifted or off-by-one slice visible"]
